@@ -197,6 +197,7 @@ def c07b(ck, prog):
         prefix = [c for g in bodies for c in g.calls_to(r"byte_reader::Reader::<'r>::(read_uint|read_int|read_while|next_if)$")]
         parse = [c for g in bodies for c in g.calls_to(r"^core::str::<impl str>::parse$")]
         whole = False
+        not_whole = []
         for c in parse:
             g = c.fn
             src = decision.describe_deep(g, c.args[0], 4)
@@ -207,6 +208,8 @@ def c07b(ck, prog):
                 src = "deref(%s)" % cap if cap else src
             if c.targs and c.targs[0] == ty and re.fullmatch(r"(deref|as_ref|borrow|as_str)\(arg1\)|arg1", src):
                 whole = True
+            else:
+                not_whole.append(src)
         if not whole and not parse:
             # the parse may sit in a generic helper `h::<T>(param)`: the helper parses its whole argument as its type
             # parameter, and this impl instantiates it with its own type on its own whole parameter
@@ -225,7 +228,7 @@ def c07b(ck, prog):
                     asrc = decision.describe_deep(g, c.args[0], 4) if c.args else ""
                     if generic and re.fullmatch(r"(deref|as_ref|borrow|as_str)\(arg1\)|arg1", hsrc) and g is f and re.fullmatch(r"(deref|as_ref|borrow|as_str)\(arg1\)|arg1", asrc):
                         whole = True
-        ok = whole and not prefix
+        ok = whole and not prefix and not not_whole       # every parse of the impl, not just one of them
         ck.ob(R, ty + ":whole-segment", ok, f.loc(None),
               "" if ok else ("FromParam for %s reads the parameter with %s: a prefix parser with unchecked arithmetic -- `/12abc` is accepted as 12 and a value beyond the range wraps (release) or panics (debug) instead of being refused"
                              % (ty, ", ".join(sorted({c.name for c in prefix})) or "something other than str::parse::<%s> on the whole parameter" % ty)),
